@@ -1,8 +1,8 @@
-\* Universe M (quick): TWO modules side by side on an 8x8 die (trunks 4x4 / 4x2 at x = 0 and x = 4: they touch),
+\* Universe M (quick): TWO modules side by side on a 9x8 die (all four borders can be crossed; width # height) (trunks 4x4 / 4x2 at x = 0 and x = 4: they touch),
 \* at most one 2x1 branch in all, all kinds at both positions, soft with slack 0, ratio limit 2.
 SPECIFICATION Spec
 CONSTANTS
-  DW = 8
+  DW = 9
   DH = 8
   RP = 2
   RQ = 1
